@@ -413,4 +413,128 @@ theorem sortVers_getLast (l : List (Str × Lexed)) (m : Str × Lexed) (hm : last
   exact getLast_stableSort l (sortVers l) m hm hl (sortVers_perm l) (sortVers_sorted l hl)
     (sortVers_stable m l (hl m hmem) hl)
 
+/-! ## everything listed is declared where it is reported -/
+
+/-- `(i, v)`: the stack `i` declares the version `v` -/
+def Declared (stacks : List (List Decl)) (p : Nat × Str) : Prop :=
+  ∃ st, stacks[p.1]? = some st ∧ ∃ d ∈ st, d.ver = p.2
+
+theorem taggedAcross_spec (t : Str) (rest : List (List Decl)) : ∀ (k j : Nat) (v : Str),
+    taggedAcross t k rest = some (j, v) → k ≤ j ∧ ∃ st, rest[j - k]? = some st ∧ ∃ d ∈ st, d.ver = v ∧ d.tags.contains t = true := by
+  induction rest with
+  | nil => intro k j v h; simp [taggedAcross] at h
+  | cons st rest ih =>
+    intro k j v h
+    simp only [taggedAcross] at h
+    cases hf : st.find? (fun d => d.tags.contains t) with
+    | some d =>
+      simp only [hf, Option.some.injEq, Prod.mk.injEq] at h
+      obtain ⟨rfl, rfl⟩ := h
+      exact ⟨Nat.le_refl _, st, by simp, d, List.mem_of_find?_eq_some hf, rfl, by simpa using List.find?_some hf⟩
+    | none =>
+      simp only [hf] at h
+      obtain ⟨hle, st2, hget, hd⟩ := ih (k + 1) j v h
+      refine ⟨by omega, st2, ?_, hd⟩
+      have : j - k = (j - (k + 1)) + 1 := by omega
+      rw [this]; simpa using hget
+
+theorem listStack_declared (verArg : Str) (tags : List Str) (all : List (List Decl)) (i : Nat) (st : List Decl)
+    (hst : all[i]? = some st) (out out' : List (Nat × Str)) (hout : ∀ p ∈ out, Declared all p)
+    (h : listStack verArg tags all i st out = .ok (some out')) : ∀ p ∈ out', Declared all p := by
+  simp only [listStack] at h
+  cases h1 : lexPairs (st.map (·.ver)) with
+  | error e => simp only [h1] at h; simp at h
+  | ok allPs =>
+    simp only [h1] at h
+    cases h2 : (if verArg.isEmpty = true then (Except.ok (some (st.map (·.ver))) : Except Err (Option (List Str)))
+        else filterVers verArg (st.map (·.ver))) with
+    | error e => simp only [h2] at h; simp at h
+    | ok ov =>
+      cases ov with
+      | none => simp only [h2] at h; simp at h
+      | some vers =>
+        have hvers : ∀ v ∈ vers, ∃ d ∈ st, d.ver = v := by
+          intro v hv
+          by_cases he : verArg.isEmpty = true
+          · simp only [he, if_true, Except.ok.injEq, Option.some.injEq] at h2
+            subst h2
+            obtain ⟨d, hd, rfl⟩ := List.mem_map.mp hv
+            exact ⟨d, hd, rfl⟩
+          · simp only [he, Bool.false_eq_true, if_false] at h2
+            obtain ⟨hm, _⟩ := (filterVers_spec verArg _ vers h2 v).mp hv
+            obtain ⟨d, hd, rfl⟩ := List.mem_map.mp hm
+            exact ⟨d, hd, rfl⟩
+        simp only [h2] at h
+        cases h3 : lexPairs vers with
+        | error e => simp only [h3] at h; simp at h
+        | ok ps =>
+          simp only [h3, Except.ok.injEq, Option.some.injEq] at h
+          subst h
+          obtain ⟨hmap, _⟩ := lexPairs_spec h3
+          have hsorted : ∀ v ∈ (sortVers ps).map (·.1), v ∈ vers := by
+            intro v hv
+            obtain ⟨y, hy, rfl⟩ := List.mem_map.mp hv
+            rw [← hmap]; exact List.mem_map_of_mem ((mem_sortVers y ps).mp hy)
+          have hhere : ∀ v ∈ vers, Declared all (i, v) := fun v hv => ⟨st, hst, hvers v hv⟩
+          have key : ∀ (o : Option Str) (sorted : List Str) (l : Str),
+              (match o with
+               | some l => if sorted.contains l = true then some l else none
+               | none => none) = some l → l ∈ sorted := by
+            intro o sorted l hl
+            cases o with
+            | none => simp at hl
+            | some l0 =>
+              simp only at hl
+              split at hl
+              · rename_i hc; simp only [Option.some.injEq] at hl; subst hl; simpa using hc
+              · simp at hl
+          intro p hp
+          simp only [List.mem_append] at hp
+          rcases hp with ((hp | hp) | hp) | hp
+          · exact hout p hp
+          · -- a tagged product of the whole path
+            obtain ⟨t, _, ht⟩ := List.mem_filterMap.mp hp
+            obtain ⟨j, v⟩ := p
+            obtain ⟨_, st2, hget, d, hd, hdv, _⟩ := taggedAcross_spec t all 0 j v ht
+            exact ⟨st2, by simpa using hget, d, hd, hdv⟩
+          · obtain ⟨v, hv, rfl⟩ := List.mem_map.mp hp
+            exact hhere v (hsorted v (List.mem_filter.mp hv).1)
+          · -- the stack's latest, which passed the version argument
+            split at hp
+            · rename_i l hl
+              simp only [List.mem_singleton] at hp
+              subst hp
+              exact hhere l (hsorted l (key _ _ l hl))
+            · simp at hp
+
+theorem listStacks_declared (verArg : Str) (tags : List Str) (all : List (List Decl)) (rest : List (List Decl)) :
+    ∀ (i : Nat) (out out' : List (Nat × Str)), all.drop i = rest → (∀ p ∈ out, Declared all p) →
+      listStacks verArg tags all i rest out = .ok (some out') → ∀ p ∈ out', Declared all p := by
+  induction rest with
+  | nil =>
+    intro i out out' _ hout h
+    simp only [listStacks, Except.ok.injEq, Option.some.injEq] at h
+    subst h; exact hout
+  | cons st rest ih =>
+    intro i out out' hdrop hout h
+    have hget : all[i]? = some st := by
+      have := congrArg List.head? hdrop
+      simpa [List.head?_drop] using this
+    have hdrop' : all.drop (i + 1) = rest := by
+      have := congrArg List.tail hdrop
+      simpa [List.tail_drop] using this
+    simp only [listStacks] at h
+    by_cases hst : st.isEmpty = true
+    · simp only [hst, if_true] at h
+      exact ih (i + 1) out out' hdrop' hout h
+    · simp only [hst, Bool.false_eq_true, if_false] at h
+      cases h1 : listStack verArg tags all i st out with
+      | error e => simp [h1] at h
+      | ok oo =>
+        cases oo with
+        | none => simp [h1] at h
+        | some mid =>
+          simp only [h1] at h
+          exact ih (i + 1) mid out' hdrop' (listStack_declared verArg tags all i st hget out mid hout h1) h
+
 end EupsModel.VersionCmp
